@@ -514,6 +514,11 @@ func (c *Ctx) constMapUpdates(pkg string, fns []string) map[string]map[string]st
 	for _, name := range fns {
 		fn := c.Fn(pkg, name)
 		out[name] = map[string]string{}
+		if fn == nil && name == "executeReplaceProcess" {
+			// the handler of a transform item may have been folded into the dispatcher of the replacer (or into a method of its
+			// state that the dispatcher calls): start from the dispatcher
+			fn = c.Fn(pkg, "executeReplace")
+		}
 		if fn == nil {
 			continue
 		}
